@@ -607,6 +607,10 @@ def witnesses(ctx):
                           "union C { B b; uint32 w; };\nstruct H { uint8 h; C c; uint8 t; };", endian, False, False)
             u = cs.U(b"\x01\x02\x03")
             h = cs.H(bytes([9, 1, 2, 3, 4, 7]))
+            # a union whose members are all anonymous structures is written through the largest of them
+            csa = lib.load("union AA { struct { uint8 a; }; struct { uint32 b; }; struct { uint16 c; }; };", endian, False, False)
+            if csa.AA(b"\x01\x02\x03\x04").dumps() != b"\x01\x02\x03\x04":
+                raise AssertionError("all-anonymous union dumps " + csa.AA(b"\x01\x02\x03\x04").dumps().hex())
             facts = (u.dumps(), (int(u.a), int(u.b), int(u.c)), h.dumps(), int(h.c.b.a.s.x), [int(v) for v in h.c.b.a.r], len(cs.C))
             want = (b"\x01\x02\x03", (1, 2, 3), bytes([9, 1, 2, 3, 4, 7]), 1, [1, 2, 3], 4)
             h.c.b.a.s.x = 0x55
